@@ -133,6 +133,8 @@ def prop_wave(case):
     same(r0[:, :, :k], res(s6, list(range(k))), f'c_prop(sims={k})')
     s6b = sim(WaveSimCuda, dl=d_alone, ksims=k)
     same(r0[:, :, :k], res(s6b, list(range(k))), f'WaveSimCuda c_prop(sims={k})')
+    if case['seed'] % 2:
+        same(r0, res(sim(dl=d_alone, ksims=lanes + 3)), f'c_prop(sims={lanes + 3}) with only {lanes} simulations allocated')
     # 7 dataset selection
     if case['nds'] > 1:
         for klass in (WaveSim, WaveSimCuda):
